@@ -150,7 +150,7 @@ class GaussianKDE(DensityEstimator):
 
         # create a grid in log-bandwidth space and evaluate the log-prob across it
         dh = 0.5
-        log_h = [initial_h + m * dh for m in (-2, -1, 0, 1, 2)]
+        log_h = [log(initial_h) + m * dh for m in (-2, -1, 0, 1, 2)]
         log_p = [self.cross_validation_logprob(samples, exp(h)) for h in log_h]
 
         # if the maximum log-probability is at the edge of the grid, extend it
